@@ -4,6 +4,7 @@ Property C20 — copyright notices are built and merged without losing holders o
 import ReuseVerif.Lemmas.CopyrightMain
 import ReuseVerif.Lemmas.Merge
 import ReuseVerif.Lemmas.C20NoNotice
+import ReuseVerif.Lemmas.C20MergeLines
 
 namespace C20
 open Py Model Spec
@@ -372,6 +373,80 @@ theorem C20_merge_year_kept (parsed : List Parsed) (stmt : Text) (h : yearsOf pa
     cases hhi : yearMax (yearsOf parsed stmt) with
     | none => simp [hhi] at h2
     | some hi => simp only; split <;> rfl
+
+/-! ### Merging, end to end on lines -/
+
+/-- `_parse_copyright_year` reads the stated years back from the year text of a well-formed year form. -/
+theorem C20_parse_year (y : YearForm) (hy : y.wf = true) : parseYear y.text = y.stated :=
+  parseYear_text y hy
+
+/-- **`merge_copyright_lines` on lines.**  Let every input line be a built notice
+    `prefix [year] holder` with well-formed parts (`Notice.ok`: table prefix, year form `YYYY` /
+    `YYYY[ ]-[ ]YYYY` / none, `WFHolderL` holder without a notice inside), for any number of lines,
+    holders, prefixes and year forms.  Then the output
+    * has no duplicates,
+    * consists of merged lines of holders of the input and of nothing else,
+    * contains a merged line for every holder of the input, and
+    * contains only one line per holder as the tool's own reader sees it (two output lines with the
+      same statement are the same line),
+    where a merged line of `h` (`MergedLine`) is a built line — the most common prefix text of the
+    holder's notices, which is a text of the prefix table; a well-formed year form; the holder —
+    that the tool's reader reads back as exactly that prefix, year text and holder, whose year text
+    `_parse_copyright_year` reads back as the stated ends, and whose year is absent iff no year was
+    stated for `h`, else `lo` or `lo - hi` with `lo`, `hi` stated for `h` and
+    `int(lo) ≤ int(y) ≤ int(hi)` for every year `y` stated for `h` in the input. -/
+theorem C20_merge_lines (endRe : Re) (ns : List Notice) (hok : ∀ n ∈ ns, n.ok endRe) :
+    (mergeLinesWith endRe (ns.map Notice.line)).Nodup ∧
+    (∀ o ∈ mergeLinesWith endRe (ns.map Notice.line), ∃ n ∈ ns, MergedLine endRe ns n.holder o) ∧
+    (∀ n ∈ ns, ∃ o ∈ mergeLinesWith endRe (ns.map Notice.line), MergedLine endRe ns n.holder o) ∧
+    (∀ o ∈ mergeLinesWith endRe (ns.map Notice.line), ∀ o' ∈ mergeLinesWith endRe (ns.map Notice.line),
+      (searchLineWith endRe o).map (·.statement) = (searchLineWith endRe o').map (·.statement) → o = o') := by
+  have hrb : ReadBack endRe := fun x hx y hy h hw hn => C20_make_parse endRe x hx y hy h hw hn
+  have hp := parseLines_notices endRe hrb ns hok
+  have htab := C20_prefix_table.1
+  have hmem : ∀ o, o ∈ mergeLinesWith endRe (ns.map Notice.line) ↔
+      ∃ n ∈ ns, o = lineFor (ns.map Notice.parsed) n.holder := by
+    intro o
+    rw [C20_merge_holders, hp]
+    constructor
+    · rintro ⟨x, hx, rfl⟩
+      obtain ⟨n, hn, rfl⟩ := List.mem_map.mp hx
+      exact ⟨n, hn, rfl⟩
+    · rintro ⟨n, hn, rfl⟩
+      exact ⟨n.parsed, List.mem_map.mpr ⟨n, hn, rfl⟩, rfl⟩
+  refine ⟨C20_merge_single_line endRe _, ?_, ?_, ?_⟩
+  · intro o ho
+    obtain ⟨n, hn, rfl⟩ := (hmem o).mp ho
+    exact ⟨n, hn, lineFor_merged endRe hrb ns hok htab n hn⟩
+  · intro n hn
+    exact ⟨_, (hmem _).mpr ⟨n, hn, rfl⟩, lineFor_merged endRe hrb ns hok htab n hn⟩
+  · intro o ho o' ho' hs
+    obtain ⟨n, hn, rfl⟩ := (hmem o).mp ho
+    obtain ⟨n', hn', rfl⟩ := (hmem o').mp ho'
+    obtain ⟨_, _, _, _, _, hr, _⟩ := lineFor_merged endRe hrb ns hok htab n hn
+    obtain ⟨_, _, _, _, _, hr', _⟩ := lineFor_merged endRe hrb ns hok htab n' hn'
+    rw [hr, hr'] at hs
+    simp only [Option.map_some, Option.some.injEq] at hs
+    rw [hs]
+
+/-- the hypotheses of `C20_merge_lines` are satisfiable with several lines of one holder, different
+    prefixes and year forms (here with an END pattern that only knows `}`; the tie stream
+    `mergetheorem` evaluates them with the generated END pattern) -/
+example : ∀ n ∈ [
+      (⟨("Copyright (C)".toList, CPat.word, " (C)".toList), .single "2019".toList, "Copyrighted Works Ltd.".toList⟩ : Notice),
+      ⟨("©".toList, CPat.sign, []), .range "2016".toList false true "2021".toList, "Copyrighted Works Ltd.".toList⟩,
+      ⟨("SPDX-FileCopyrightText:".toList, CPat.spdx, []), .none, "Jane Doe <jane@example.com>".toList⟩],
+    n.ok (Re.chr '}') := by
+  have hbt : ∀ (c : Char) (cs : Text), c ≠ '}' → endAccepts (Re.chr '}') (c :: cs) = false := by
+    intro c cs h
+    have : ('}' == c) = false := by simpa using fun e : '}' = c => h e.symm
+    simp [endAccepts, Re.bt, this]
+  intro n hn
+  simp only [List.mem_cons, List.not_mem_nil, or_false] at hn
+  rcases hn with rfl | rfl | rfl <;>
+    refine ⟨by simp [prefixShapes], by decide, ?_, by decide⟩ <;>
+    simp [WFHolderL, noEndSuffix, hbt, parenStart, hasTag, dashYear, isReSpace, isReDigit, Re.inRanges,
+      Generated.spaceRanges, Generated.digitRanges] <;> decide
 
 example : (YearForm.range "2019".toList true true "2021".toList).wf = true := by decide
 example : ("Copyright (C)".toList, CPat.word, " (C)".toList) ∈ prefixShapes := by simp [prefixShapes]
